@@ -321,6 +321,225 @@ func c07VarInits(s *source, e *emitter, rel, needle, leanName string) {
 	e.stringList(leanName, "package variables initialised with `"+needle+"` in "+rel, out)
 }
 
+
+// c07LitFields lists `field: value` of the (first) composite literal of type typ inside goName: which flight group /
+// map / redis handle a constructor wires into the object.
+func c07LitFields(s *source, e *emitter, rel, goName, typ, leanName string) {
+	fd := s.findFunc(rel, goName)
+	var out []string
+	found := false
+	if fd != nil {
+		ast.Inspect(fd.Body, func(n ast.Node) bool {
+			cl, ok := n.(*ast.CompositeLit)
+			if !ok || found || cl.Type == nil || s.src(cl.Type) != typ {
+				return true
+			}
+			found = true
+			for _, el := range cl.Elts {
+				if kv, ok := el.(*ast.KeyValueExpr); ok {
+					out = append(out, s.src(kv.Key)+": "+s.src(kv.Value))
+				} else {
+					out = append(out, s.src(el))
+				}
+			}
+			return false
+		})
+	}
+	if !found {
+		e.errors = append(e.errors, "composite literal "+typ+" not found in "+goName+" ("+rel+")")
+		out = []string{"MISSING"}
+	}
+	e.stringList(leanName, "fields of the `"+typ+"` literal in `"+goName+"` ("+rel+")", out)
+}
+
+// c07Cond translates a Go condition over boolean identifiers, `x != nil` / `x == nil`, `!`, `&&`, `||` into a Lean
+// Bool term; the atoms it mentions are appended to used.
+func c07Cond(s *source, x ast.Expr, used *[]string) (string, bool) {
+	switch v := x.(type) {
+	case *ast.ParenExpr:
+		t, ok := c07Cond(s, v.X, used)
+		return "(" + t + ")", ok
+	case *ast.Ident:
+		if v.Name == "true" || v.Name == "false" {
+			return v.Name, true
+		}
+		*used = append(*used, v.Name)
+		return v.Name, true
+	case *ast.UnaryExpr:
+		if v.Op == token.NOT {
+			t, ok := c07Cond(s, v.X, used)
+			return "(!" + t + ")", ok
+		}
+	case *ast.BinaryExpr:
+		if v.Op == token.LAND || v.Op == token.LOR {
+			a, ok1 := c07Cond(s, v.X, used)
+			b, ok2 := c07Cond(s, v.Y, used)
+			op := " && "
+			if v.Op == token.LOR {
+				op = " || "
+			}
+			return "(" + a + op + b + ")", ok1 && ok2
+		}
+		if id, ok := v.X.(*ast.Ident); ok && s.src(v.Y) == "nil" && (v.Op == token.NEQ || v.Op == token.EQL) {
+			a := id.Name + "NonNil"
+			*used = append(*used, a)
+			if v.Op == token.EQL {
+				return "(!" + a + ")", true
+			}
+			return a, true
+		}
+	}
+	return "false", false
+}
+
+// c07Branches translates the decision structure of goName (lit: of the first function literal in it) — a sequence of
+// `if <cond> { …; return … | goto L }` statements without else, other statements in between, and a final return —
+// into
+//
+//	def <lean> (atoms… : Bool) : Nat        index of the exit taken (0, 1, …; the final return is the last index)
+//	def <lean>Exits : List String           the return / goto statement of every exit, in order
+//
+// so that Tie.lean can prove, for ALL values of the atoms, that the model branches exactly as the code does.
+func c07Branches(s *source, e *emitter, rel, goName string, lit bool, leanName string, atoms []string) {
+	fd := s.findFunc(rel, goName)
+	fail := func(msg string) {
+		e.errors = append(e.errors, "c07Branches "+goName+" ("+rel+"): "+msg)
+		e.printf("/-- MISSING: %s -/\ndef %s : Nat := 999999\n\n", msg, leanName)
+		e.stringList(leanName+"Exits", "MISSING", []string{"MISSING"})
+	}
+	if fd == nil {
+		fail("function not found")
+		return
+	}
+	list := fd.Body.List
+	if lit {
+		var fl *ast.FuncLit
+		ast.Inspect(fd.Body, func(n ast.Node) bool {
+			if x, ok := n.(*ast.FuncLit); ok && fl == nil {
+				fl = x
+				return false
+			}
+			return true
+		})
+		if fl == nil {
+			fail("no function literal")
+			return
+		}
+		list = fl.Body.List
+	}
+	exitOf := func(st ast.Stmt) (string, bool) {
+		switch x := st.(type) {
+		case *ast.ReturnStmt:
+			var rs []string
+			for _, r := range x.Results {
+				rs = append(rs, s.src(r))
+			}
+			return strings.TrimSpace("return " + strings.Join(rs, ", ")), true
+		case *ast.BranchStmt:
+			if x.Tok == token.GOTO && x.Label != nil {
+				return "goto " + x.Label.Name, true
+			}
+		}
+		return "", false
+	}
+	var conds, exits []string
+	var used []string
+	done := false
+	var walk func(list []ast.Stmt) bool
+	walk = func(list []ast.Stmt) bool {
+		for _, st := range list {
+			if done {
+				fail("statement after the final return")
+				return false
+			}
+			if ls, ok := st.(*ast.LabeledStmt); ok {
+				st = ls.Stmt
+			}
+			switch x := st.(type) {
+			case *ast.IfStmt:
+				if x.Else != nil || len(x.Body.List) == 0 {
+					fail("if with else / empty body")
+					return false
+				}
+				ex, ok := exitOf(x.Body.List[len(x.Body.List)-1])
+				if !ok {
+					fail("if body does not end in return / goto: " + s.src(x.Cond))
+					return false
+				}
+				c, ok := c07Cond(s, x.Cond, &used)
+				if !ok {
+					fail("condition outside the translated subset: " + s.src(x.Cond))
+					return false
+				}
+				conds = append(conds, c)
+				exits = append(exits, ex)
+			case *ast.ReturnStmt:
+				ex, _ := exitOf(x)
+				exits = append(exits, ex)
+				done = true
+			case *ast.ForStmt, *ast.RangeStmt, *ast.SwitchStmt, *ast.SelectStmt, *ast.TypeSwitchStmt, *ast.BlockStmt:
+				fail("control statement outside the translated subset")
+				return false
+			}
+		}
+		return true
+	}
+	if !walk(list) {
+		return
+	}
+	if !done {
+		fail("no final return")
+		return
+	}
+	isAtom := map[string]bool{}
+	for _, a := range atoms {
+		isAtom[a] = true
+	}
+	for _, u := range used {
+		if !isAtom[u] {
+			fail("condition mentions `" + u + "`, not one of the declared atoms")
+			return
+		}
+	}
+	e.printf("/-- exit taken by `%s`%s in %s (translated from the `if` conditions) -/\ndef %s", goName,
+		map[bool]string{true: "'s function literal", false: ""}[lit], rel, leanName)
+	for _, a := range atoms {
+		e.printf(" (%s : Bool)", a)
+	}
+	e.printf(" : Nat :=\n  ")
+	for i, c := range conds {
+		e.printf("if %s = true then %d else ", c, i)
+	}
+	e.printf("%d\n\n", len(conds))
+	e.stringList(leanName+"Exits", "the exits of `"+goName+"` in source order", exits)
+}
+
+// c07IntArgs lists the integer literal arguments of the calls in goName whose callee text ends with suffix
+// (`wg.Add(1)`: the amount the wait group is incremented by).
+func c07IntArgs(s *source, e *emitter, rel, goName, suffix, leanName string) {
+	fd := s.findFunc(rel, goName)
+	var out []string
+	if fd == nil {
+		e.errors = append(e.errors, "function "+goName+" not found in "+rel)
+	} else {
+		ast.Inspect(fd.Body, func(n ast.Node) bool {
+			if c, ok := n.(*ast.CallExpr); ok && strings.HasSuffix(s.src(c.Fun), suffix) {
+				for _, a := range c.Args {
+					if bl, ok := a.(*ast.BasicLit); ok && bl.Kind == token.INT {
+						out = append(out, bl.Value)
+					} else {
+						out = append(out, "-999999")
+						e.errors = append(e.errors, "non-literal argument of "+suffix+" in "+goName)
+					}
+				}
+			}
+			return true
+		})
+	}
+	e.printf("/-- integer arguments of `%s` calls in `%s` (%s) -/\ndef %s : List Int := [%s]\n\n", suffix, goName, rel,
+		leanName, strings.Join(out, ", "))
+}
+
 func init() {
 	register("C07", func(s *source, e *emitter) {
 		const sf = "core/syncx/singleflight.go"
@@ -349,6 +568,31 @@ func init() {
 		// what the two Take functions do around the flight (lookup before / inside, what joiners are handed)
 		c07Shape(s, e, "core/collection/cache.go", "Cache.Take", "collectionTakeShape")
 		c07Shape(s, e, "core/stores/cache/cachenode.go", "cacheNode.doTake", "cacheNodeDoTakeShape")
+		// the functions Take / doTake call on the property's path, the constructors' wiring, the entry points of doTake
+		const cc = "core/collection/cache.go"
+		const cn = "core/stores/cache/cachenode.go"
+		c07Shape(s, e, cc, "Cache.doGet", "collectionDoGetShape")
+		c07Shape(s, e, cc, "Cache.Set", "collectionSetShape")
+		c07Shape(s, e, cc, "Cache.SetWithExpire", "collectionSetWithExpireShape")
+		c07LitFields(s, e, cc, "NewCache", "Cache", "collectionNewCacheFields")
+		c07LitFields(s, e, cn, "NewNode", "cacheNode", "cacheNodeNewNodeFields")
+		c07Shape(s, e, cn, "cacheNode.Take", "cacheNodeTakeShape")
+		c07Shape(s, e, cn, "cacheNode.TakeCtx", "cacheNodeTakeCtxShape")
+		c07Shape(s, e, cn, "cacheNode.TakeWithExpire", "cacheNodeTakeWithExpireShape")
+		c07Shape(s, e, cn, "cacheNode.TakeWithExpireCtx", "cacheNodeTakeWithExpireCtxShape")
+		c07Shape(s, e, cn, "cacheNode.doGetCache", "cacheNodeDoGetCacheShape")
+		c07Shape(s, e, cn, "cacheNode.SetCtx", "cacheNodeSetCtxShape")
+		// decision conditions on the property's path, translated to Lean functions of their boolean atoms
+		c07Branches(s, e, sf, "flightGroup.createCall", false, "createCallBranch", []string{"ok"})
+		c07Branches(s, e, sf, "flightGroup.DoEx", false, "doExBranch", []string{"done"})
+		c07Branches(s, e, sf, "flightGroup.Do", false, "doBranch", []string{"done"})
+		c07Branches(s, e, lc, "lockedGroup.Do", false, "lockedDoBranch", []string{"ok"})
+		c07Branches(s, e, rm, "ResourceManager.GetResource", true, "getResourceClosureBranch", []string{"ok", "errNonNil"})
+		c07Branches(s, e, rm, "ResourceManager.GetResource", false, "getResourceBranch", []string{"errNonNil"})
+		c07Branches(s, e, cc, "Cache.Take", true, "collectionTakeClosureBranch", []string{"ok", "eNonNil"})
+		c07Branches(s, e, cc, "Cache.Take", false, "collectionTakeBranch", []string{"ok", "errNonNil", "fresh"})
+		c07IntArgs(s, e, sf, "flightGroup.createCall", "wg.Add", "sfWgAdd")
+		c07IntArgs(s, e, lc, "lockedGroup.makeCall", "wg.Add", "lcWgAdd")
 		// sqlc / monc: one process-wide flight group handed to every cache node (keys are the cache keys)
 		c07VarInits(s, e, "core/stores/sqlc/cachedsql.go", "NewSingleFlight", "sqlcFlightVar")
 		c07Uses(s, e, "core/stores/sqlc/cachedsql.go", "singleFlights", "sqlcFlightUses")
